@@ -130,6 +130,65 @@ def _worker(args):
     return n, bad[:30], len(bad), sorted(classes)
 
 
+def grants_half(scratch, tier, seed):
+    """spec/Grants.tla: per-author tables of the settings file; a bypass key is in force for the author of a pull
+    request (without any comment) exactly when the author's own entry lists it."""
+    cfg = os.path.join(scratch, 'grants.cfg')
+    open(cfg, 'w').write('SPECIFICATION Spec\n')
+    out = os.path.join(scratch, 'grants.ndjson')
+    r = tlc.run_tlc('Grants.tla', cfg, scratch, workers=1, env={'OUT_FILE': out})
+    if not os.path.exists(out):
+        raise tlc.TLCError('Grants oracle produced nothing:\n' + r['out'][-3000:])
+    rows = [json.loads(l) for l in open(out) if l.strip()]
+    if REPO not in sys.path:
+        sys.path.insert(0, REPO)
+    import logging
+    logging.disable(logging.CRITICAL)
+    from bert_e.settings import setup_settings, PrAuthorsOptions
+    from bert_e.job import PullRequestJob
+    from bert_e.reactor import Reactor
+    from bert_e.workflow import gitwaterflow as gwf
+    from bert_e.workflow.gitwaterflow import utils
+    gwf.setup({})
+    ALL = list(PrAuthorsOptions.BYPASS_LIST)
+    rotations = range(7) if tier == 'thorough' else [(seed + j * 3) % 7 for j in range(2)]
+    yp = os.path.join(scratch, 'grants.yml')
+    n = 0
+    bad = []
+    for rot in rotations:
+        real = {k: ALL[(2 * k + rot) % 7] for k in (1, 2, 3)}
+        for row in rows:
+            y = ['repository_owner: o', 'repository_slug: s', 'repository_host: mock', 'robot: robot',
+                 'robot_email: r@x.org', 'admins:', '  - admin', 'pr_author_options:']
+            for name, keys in zip(row['names'], row['keys']):
+                y.append('  %s:%s' % (name, '' if keys else ' []'))
+                y += ['    - ' + real[k] for k in keys]
+            open(yp, 'w').write('\n'.join(y) + '\n')
+            st = setup_settings(yp)
+
+            class BE:
+                project_repo = object()
+                git_repo = object()
+                client = SimpleNamespace(login='robot')
+            BE.settings = st
+            for who, gr in row['granted'].items():
+                exp = sorted(real[k] for k in gr)
+                job = PullRequestJob(bert_e=BE, pull_request=SimpleNamespace(author=who, id=1, comments=[]))
+                Reactor().init_settings(job)
+                n += 1
+                got_tab = sorted(k for k, v in job.author_bypass.items() if v)
+                got_fn = sorted(k for k in ALL if hasattr(utils, k) and getattr(utils, k)(job))
+                got_act = sorted(k for k in job.active_options if k.startswith('bypass_'))
+                exp_fn = sorted(k for k in exp if hasattr(utils, k))
+                if got_tab != exp or got_fn != exp_fn or got_act != exp:
+                    bad.append(dict(table=[[nm, [real[k] for k in ks]] for nm, ks in zip(row['names'], row['keys'])],
+                                    pr_author=who, granted_by_settings=exp, author_bypass=got_tab,
+                                    bypass_helpers_true=got_fn, active_options=got_act,
+                                    problem='privileged options in force without a comment differ from the grants of '
+                                            'the per-author settings'))
+    return len(rows), n, bad
+
+
 def check(tier, seed):
     t0 = time.time()
     scratch = explore.make_scratch('c07')
@@ -155,6 +214,7 @@ def check(tier, seed):
         with ctx.Pool(16) as pool:
             rs = pool.map(_worker, work, chunksize=1)
         sample = json.loads(open(files[0]).readline())
+        g_rows, g_n, g_bad = grants_half(scratch, tier, seed)
     finally:
         shutil.rmtree(scratch, ignore_errors=True)
     n = sum(r[0] for r in rs)
@@ -172,6 +232,14 @@ def check(tier, seed):
         viol.append(dict(sig=dict(clause='C07.reactor', problem=b['problem'],
                                   comments=' || '.join('%s: %s' % (c['author'], c['text']) for c in b['comments'])),
                          replay=p))
+    for i, b in enumerate(g_bad[:50]):
+        p = os.path.join(rdir, 'C07_g%d.json' % i)
+        json.dump(b, open(p, 'w'), indent=1)
+        viol.append(dict(sig=dict(clause='C07.grants', table=json.dumps(b['table']), pr_author=b['pr_author'],
+                                  in_force=','.join(b['author_bypass'])), replay=p))
+    nbad += len(g_bad)
+    n += g_n
+    total += g_rows
     new = evidence.report('C07', viol, rdir)
     evidence.write('C07', tier, seed, 'model_checking', dict(
         states=total, transitions=total, traces_validated_against_impl=n,
@@ -181,13 +249,17 @@ def check(tier, seed):
         rule='comment lists from spec/Reactor.tla: single comments over 3 authors x 4 syntaxes x 1..3 keywords (22 '
              'keyword tokens incl. =arg variants) x 9 separators x leading/trailing text/whitespace; pairs and '
              'triples over reduced comment sets incl. robot messages, every order; each run with the author '
-             'not admin / listed as admin; distinct = (constraints, blocking outcome) classes',
+             'not admin / listed as admin; distinct = (constraints, blocking outcome) classes.  Grants half '
+             '(spec/Grants.tla): every per-author table of 1..3 entries over 3 names x subsets of 3 keys, every '
+             'entry order, 4 pull-request authors, keys rotated over the 7 real bypass_* keys',
+        grant_tables=g_rows, grant_evaluations=g_n,
         exhaustive=(tier == 'thorough'), disagreements=nbad,
         explanation='constraints computed by TLC from the four implications of C07; outcome of the real handle_comments'),
         ['token-level grammar: character-level behaviour only through the rendered strings',
          'reset / force_reset replaced by a sentinel (they need a git repository); message rendering constant',
-         'per-author and command-line grants are exercised by C04/C06/C11, not here'],
+         'command-line grants are exercised by C04/C06/C11, not here; per-author grants: spec/Grants.tla through the '
+         'real settings loader, job.author_bypass, the bypass_* helpers and active_options'],
         time.time() - t0, new)
-    print('C07: %d executions of the real handle_comments over %d comment lists, %d violations of the implications'
-          % (n, total, nbad))
+    print('C07: %d executions of the real handle_comments / settings loader over %d comment lists and grant tables, '
+          '%d violations of the implications' % (n, total, nbad))
     return 1 if new else 0
